@@ -32,7 +32,10 @@ def main(tier):
     for (prof, entry), recs in sorted(data.items()):
         seen = set()
         empties = set()
-        e2props.undecided(run, recs, prof)
+        # undecided paths count when they abort the whole entry or belong to a row of the tables; rows outside the property (Index with an id beyond the end: a
+        # panic, whatever helper raises it) are not part of the claim
+        e2props.undecided(run, [r for r in recs if r["exit"] == "undecided" and ("table" not in r or r["table"] == "Arena::is_empty"
+                                                                                 or (r["table"], (r.get("case") or [None])[0]) in EXPECT)], prof)
         for rec in recs:
             if rec["exit"] == "undecided" or "table" not in rec:
                 continue
